@@ -40,6 +40,11 @@ def programs(tier, rng):
         # adversarial spelling: the program's own names are the first names the generator hands out
         c = scopegen.Conc(p, variant=0, names={'x': 'A', 'y': 'B'})
         out.append(('%s-vAB' % pid, c.src, 'scope'))
+        # the stores as other binding statements, one suite down (`if ...:` inside the scope): import / annotated assignment / for / with / tuple
+        if any('store' in hs for u in p['uses'] for hs in u.values()):
+            sp = ['import', 'ann', 'for', 'with', 'tuple'][rng.randrange(5)]
+            c = scopegen.Conc(p, variant=0, store=sp, wrap=True)
+            out.append(('%s-s-%s-wrapped' % (pid, sp), c.src, 'scope'))
     # every two-name program once more with adversarial spelling and the second name mentioned more often than the first
     for k, p in enumerate(p22):
         c = scopegen.Conc(p, variant=0, names={'x': 'A', 'y': 'B'}, heavy=('y',))
